@@ -180,11 +180,19 @@ def maxL [LT α] [DecidableLT α] (isNaN : α → Bool) (nan : α) (x : List α)
 def shiftedExpSum [Add α] [Sub α] [Zero α] [Transc α] (m : α) (x : List α) : α :=
   (x.map fun v => exp (v - m)).foldl (· + ·) 0
 
-/-- `utils::logsumexp`. -/
+/-- The shifted formula of `utils::logsumexp` (everything after its empty-slice guard; see `logsumexpE`). -/
 def logsumexpL [Add α] [Sub α] [Zero α] [LT α] [DecidableLT α] [Transc α]
     (isNaN : α → Bool) (nan : α) (x : List α) : α :=
   let m := maxL isNaN nan x
   ln (shiftedExpSum m x) + m
+
+/-- `utils::logsumexp` as it is since the repair F55 (`fix:` be4665b): `if x.is_empty() { return f64::NEG_INFINITY; }`
+in front of the shifted formula `logsumexpL` (the sum over no element is 0, `ln 0 = −∞`; before the repair the empty
+slice gave NaN, the maximum of no element).  `ninf` is the scalar's `f64::NEG_INFINITY` (`Cv.F64Consts.negInf` at
+`Float`); a parameter, because ℝ and the other proof scalars have no such element. -/
+def logsumexpE [Add α] [Sub α] [Zero α] [LT α] [DecidableLT α] [Transc α]
+    (isNaN : α → Bool) (nan : α) (ninf : α) (x : List α) : α :=
+  if x.isEmpty then ninf else logsumexpL isNaN nan x
 
 /-- `utils::logmeanexp`. -/
 def logmeanexpL [Add α] [Sub α] [Div α] [Zero α] [NatCast α] [LT α] [DecidableLT α] [Transc α]
